@@ -1,0 +1,14 @@
+//go:build verif
+
+package p2p
+
+import "time"
+
+// Exports for the verification harness (/verif): the timers of a peer connection.
+
+const (
+	VerifHandshakeTimeout  time.Duration = handshakeTimeout
+	VerifFrameReadTimeout  time.Duration = frameReadTimeout
+	VerifFrameWriteTimeout time.Duration = frameWriteTimeout
+	VerifPingInterval      time.Duration = pingInterval
+)
